@@ -134,6 +134,27 @@ CLAIMED = {
         "technique": "Coq proof over translator-generated model; exact differential with stand-ins; exact-rational binomial oracle",
         "design": "DESIGN.md section 5, C11",
     },
+    "C08": {
+        "text": "Coq theorems (props/C08.v) over rom_power_from_stats regenerated from mean.py: power = rejection probability of the "
+                "configured test under the alternative with groups n/(1+r), n r/(1+r) and standardised effect delta/se "
+                "(noncentral t with the test's df / shifted normal); closed form for Z; range [0,1]; strictly monotone in the "
+                "effect for one-sided alternatives; a covariate never raises the variance entering the computation (Cauchy-Schwarz "
+                "form). Monotonicity in n for t and two-sided monotonicity in |effect| are validated by sweeps (partial)",
+        "note": "trusted: Coq kernel, stdlib real axioms, translator, laws L1-L9 as hypotheses (satisfiable), scipy reference in the oracle",
+        "technique": "Coq proof over translator-generated model with distribution-law hypotheses; exact differential; scipy reference oracle",
+        "design": "DESIGN.md section 5, C08",
+    },
+    "C09": {
+        "text": "Coq theorems (props/C09.v) over find_boundary / rom_solve_power_from_stats regenerated from mean.py: loop exit and "
+                "exhaustion of _find_boundary; the three solver modes; the n_obs bracket leaves each group more than one observation "
+                "for every ratio > 0; under the brentq contract the solved effect / n_obs reproduces the target power, lies in the "
+                "bracket (sign follows the alternative); ceil(root) is the minimal n given monotone power. Row assembly by oracle only",
+        "note": "trusted: Coq kernel, stdlib real axioms, translator (incl. _find_boundary loop pattern), brentq contract, C08 "
+                "monotonicity partial for minimality",
+        "technique": "Coq proof over translator-generated model with solver-contract hypothesis; exact control-flow differential; "
+                     "feed-back oracle on the public API",
+        "design": "DESIGN.md section 5, C09",
+    },
 }
 REASONS = {}
 
